@@ -362,6 +362,15 @@ func init() {
 			bases := [][][2]int{{{0, 8}}, {{16, 20}, {40, 64}}, {{5, 6}}}
 			item := 0
 			do := func(c c32Case) {
+				// a shifted layout one of whose runs would straddle 2^64 is no memory content
+				// (a store cannot wrap around the address space; ending exactly at 2^64 is fine)
+				for _, l := range [][][2]int{c.Runs, c.Over} {
+					for _, iv := range l {
+						if b, e := c.Shift+uint64(iv[0]), c.Shift+uint64(iv[1]); e < b && e != 0 {
+							return
+						}
+					}
+				}
 				item++
 				if !r.Mine(item) {
 					return
